@@ -73,6 +73,32 @@ def rule_phases(ctx: Ctx) -> None:
                       "the exit of the initialize task group dominates this create_task",
                       "a producer's main loop (or the dispatch loop) can start before every producer finished "
                       "initialize()", detail={"path": C.fmt_path(path) if path else []})
+    # an exception or a cancellation that ends the initialize phase never falls through into the main phase
+    init_nodes = [n for n in g.nodes if n.ast is not None and any(A.is_within(n.ast, w) or n.ast is w for w in init_withs.values())]
+    after_exc = g.reach([m for n in init_nodes for (m, l) in n.succ if l == "exc"], include_sources=True)
+    leaked = [c for c in main + loop if any(mn in after_exc for mn in g.nodes_for(c))]
+    ctx.check(not leaked, "C14.1", "a failed or cancelled initialize phase is never followed by main()", run, leaked[0] if leaked else run.node,
+              "no handler between the two phases", "an exception raised while initialising is handled in a way that continues with the main "
+              "phase: main() starts for producers that were not initialised", key_text="init failure skips main")
+    # ... and the context manager both phases run in lets exceptions through (a stop() during initialize cancels the group: that
+    # CancelledError has to leave the 'async with', otherwise run() carries on to main())
+    for w in {id(with_of(c)): with_of(c) for c in init + main if with_of(c) is not None}.values():
+        for item in w.items:
+            cm = item.context_expr
+            if isinstance(cm, ast.Call) and (A.call_name(cm) or "").startswith("self."):
+                cmf = ctx.repo.funcs.get(f"{run.cls.qualname}.{A.call_name(cm).split('.', 1)[1]}") if run.cls else None
+                if cmf is None:
+                    continue
+                ctx.analysed_funcs.add(cmf.qualname)
+                gc = ctx.cfg(cmf)
+                ys_ = [n for n in gc.nodes if n.ast is not None and any(isinstance(x, ast.Yield) for x in C.walk_shallow(n.ast))] if hasattr(C, "walk_shallow") else []
+                swallow = False
+                for yn in ys_:
+                    from_exc = gc.reach([m for (m, l) in yn.succ if l == "exc"], include_sources=True)
+                    swallow |= gc.exit in from_exc
+                ctx.check(bool(ys_) and not swallow, "C14.1", f"{cmf.name}() lets an exception raised inside the phase propagate", cmf, cmf.node,
+                          "no handler around the yield completes normally", f"{cmf.name}() can swallow an exception (e.g. the CancelledError "
+                          "of a stop() during initialize): the phase ends 'normally' and run() moves on to main()", key_text=f"cm propagates {cmf.name}")
     # every initialize site iterates self._producers; same for main and finalize
     for c in init + main + fin:
         it = None
